@@ -82,10 +82,61 @@ def run(ctx: Ctx):
                   and isinstance(n.ast.targets[0], ast.Name)
                   and ("destination_realm" in ast.unparse(n.ast.value) or A.dotted(n.ast.value) == "self.realm_name")]
     realm = A.dotted(realm_defs[0].ast.targets[0]) if realm_defs else None
+    # the realm variable is the one the route table is subscripted with
+    keys = {x.slice.id for x in A.walk_no_nested(f.node) if isinstance(x, ast.Subscript)
+            and A.dotted(x.value) == "self._peer_routes" and isinstance(x.slice, ast.Name)}
+    if len(keys) == 1:
+        realm = next(iter(keys))
     cons = "route_request:realm"
     ctx.inst(cons)
-    if realm is None or not any(ast.unparse(n.ast.value) == f"{msg}.destination_realm.decode()" for n in realm_defs):
+    def _from_dest_realm(e, depth=3):
+        """e is <x>.decode(...) / <x> where x is the request's destination_realm attribute, its
+        Destination-Realm AVP, or a local all of whose definitions are."""
+        if isinstance(e, ast.Call) and isinstance(e.func, ast.Attribute) and e.func.attr in ("lower", "casefold") \
+                and not e.args:
+            e = e.func.value            # case normalisation of the name (see the key-case rule)
+        if isinstance(e, ast.Call) and isinstance(e.func, ast.Attribute) and e.func.attr == "decode":
+            e = e.func.value
+        t = ast.unparse(e)
+        if t in (f"{msg}.destination_realm", f"getattr({msg}, 'destination_realm', None)"):
+            return True
+        if "AVP_DESTINATION_REALM" in t and t.startswith(f"{msg}.find_avps("):
+            return True
+        if isinstance(e, ast.Attribute) and e.attr in ("value", "payload"):
+            e = e.value
+        if isinstance(e, ast.Subscript):
+            e = e.value
+        if isinstance(e, ast.Name) and depth > 0:
+            ds = [x.value for x in A.walk_no_nested(f.node) if isinstance(x, ast.Assign)
+                  and any(isinstance(t_, ast.Name) and t_.id == e.id for t_ in x.targets)]
+            # a loop variable over the request's AVPs, selected by the Destination-Realm code
+            for x in A.walk_no_nested(f.node):
+                if isinstance(x, ast.For) and isinstance(x.target, ast.Name) and x.target.id == e.id \
+                        and ast.unparse(x.iter) == f"{msg}.avps":
+                    return any(isinstance(t_, ast.If) and "AVP_DESTINATION_REALM" in ast.unparse(t_.test)
+                               and f"{e.id}.code" in ast.unparse(t_.test) for t_ in ast.walk(x))
+            return bool(ds) and all(_from_dest_realm(d, depth - 1) for d in ds)
+        return False
+    nondefault = [n for n in g.nodes if n.kind == "stmt" and isinstance(n.ast, ast.Assign) and realm is not None
+                  and any(A.dotted(t) == realm for t in n.ast.targets)
+                  and ast.unparse(n.ast.value) not in ("self.realm_name", "self.realm_name.lower()",
+                                                       "self.realm_name.casefold()")]
+    if realm is None or not nondefault or not all(
+            isinstance(n.ast.value, ast.Call) and _from_dest_realm(n.ast.value) for n in nondefault):
         ctx.fail(cons, f.loc(), "the destination realm of the request is not what selects the route table")
+    # the request's realm replaces the node's own whenever it is PRESENT (not: whenever it is
+    # true - an empty Destination-Realm names no realm this node serves)
+    for n in nondefault:
+        v = n.ast.value
+        while isinstance(v, ast.Call) and isinstance(v.func, ast.Attribute) and v.func.attr in ("lower", "casefold", "decode"):
+            v = v.func.value
+        subj = ast.unparse(v)
+        fx = must_facts(g, at, n)
+        ctx.inst(cons + "#presence")
+        if (subj, "truthy", None, True) in fx and (subj, "is", None, False) not in fx:
+            ctx.fail(cons + "#presence", g.loc(n), f"the request's Destination-Realm is used only when "
+                     f"`{subj}` is true: an empty realm is treated as absent and the request is "
+                     f"routed - and sent - by the node's own realm instead of being not routable")
     # usable list: comprehension or guarded append
     comp = None
     for n in A.walk_no_nested(f.node):
@@ -158,7 +209,26 @@ def run(ctx: Ctx):
         ctx.fail(cons, f.loc(), "route_request does not raise NotRoutable both when no peer is "
                  "configured and when none is ready")
     for r in raises:
-        if any(g.can_reach(s, r) for s in stores):
+        late = [s_ for s_ in stores if g.can_reach(s_, r)]
+        if not late:
+            continue
+        # the one tolerated form: the connection turned out to be gone after the record was
+        # filed, and the record is taken back before the error is raised
+        fr = must_facts(g, at, r)
+        gone = any(f_[1] == "in-expr" and f_[2] == "self.connections" and f_[3] is False
+                   and str(f_[0]).endswith(".ident") for f_ in fr)
+        undone = True
+        for s_ in late:
+            tg = [t for t in s_.stores() if isinstance(t, ast.Subscript)]
+            if not tg:
+                continue        # header field of the caller's message: no routing state of the node
+            key = (A.dotted(tg[0].value), A.dotted(tg[0].slice))
+            pops = [x for x in g.nodes if x.kind == "stmt" and g.can_reach(s_, x) and g.dominated(r, [x]) and any(
+                isinstance(c.func, ast.Attribute) and c.func.attr == "pop" and A.dotted(c.func.value) == key[0]
+                and c.args and A.dotted(c.args[0]) == key[1] for c in x.calls())]
+            if not pops:
+                undone = False
+        if not (gone and undone):
             ctx.fail(cons + "#after-store", g.loc(r), "NotRoutable is raised after routing state was "
                      "already modified")
     if usable:
@@ -332,6 +402,18 @@ def run(ctx: Ctx):
                     and n.func.attr in ("pop", "popitem", "clear") \
                     and "_app_waiting_answer" in ast.unparse(n.func.value):
                 hit = True
+            if hit and f_.name == "route_request":
+                # taking back the record route_request has just filed itself, because the
+                # selected connection has been removed meanwhile (the request is not sent)
+                gq = cfg_of(f_)
+                atq = Atomizer(model, f_.module, f_.cls)
+                qn = [x for x in gq.nodes if x.kind == "stmt" and (x.ast is n or n in list(x.walk()))]
+                fq = must_facts(gq, atq, qn[0]) if qn else set()
+                if any(fx[1] == "in-expr" and fx[2] == "self.connections" and fx[3] is False
+                       and str(fx[0]).endswith(".ident") for fx in fq) \
+                        and any(isinstance(x_, ast.Raise) for b_ in [qn[0]] for x_ in
+                                [m_.ast for m_ in gq.reach([qn[0]], include_starts=False) if m_.kind == "stmt"][:3]):
+                    continue
             if hit and f_.name == "remove_peer_connection":
                 # the removed connection's own records: their answers can no longer arrive
                 gq = cfg_of(f_)
@@ -456,6 +538,8 @@ def run(ctx: Ctx):
     # closing) is never turned back into a ready - and therefore routable - one
     from .common_node import ready_state_stores
     ready_state_stores(ctx, "C10-R8")
+    from .common_node import realm_key_case
+    realm_key_case(ctx, "C10-R10")
     # writer, readers and purge of the flat transaction tables agree on the key
     from .common_node import transaction_table_keys
     transaction_table_keys(ctx, "C10-R9", tables=("_app_waiting_answer",))
